@@ -777,3 +777,100 @@ Proof.
   - change (ua (set_trk_status t1 uuid hh false)) with (ua t1) in H. congruence.
   - change (ua (set_trk_status t1 uuid h false)) with (ua t1) in H. congruence.
 Qed.
+
+Lemma keys_index_block hash txs : keys_of (ib_data (index_block hash txs)) = txs.
+Proof. unfold keys_of, index_block. cbn [ib_data]. rewrite map_map. cbn [fst]. apply map_id. Qed.
+
+Lemma keys_cache_block hash txs : keys_of (ib_data (cache_block hash txs)) = txs.
+Proof. unfold keys_of, cache_block. cbn [ib_data]. rewrite map_map. cbn [fst]. apply map_id. Qed.
+
+Definition inv_wr : StableWR Inv := sb_wr Inv (sa_block Inv inv_stable).
+
+Lemma ua_fields t t' : ua t' = ua t -> gk_users t' = gk_users t /\ db_users t' = db_users t /\ db_apps t' = db_apps t.
+Proof. unfold ua. intros H. inversion H. auto. Qed.
+
+Lemma avail_users t t' v : db_users t' = db_users t -> avail t' v = avail t v.
+Proof. unfold avail. intros H. rewrite H. reflexivity. Qed.
+
+(* the completed trackers' appointments are refunded, then deleted *)
+Lemma delete_refund_spec tc completed td :
+  Inv tc -> NoDup completed ->
+  (match completed with [] => Ok tt tc | _ => gk_delete_appointments tc completed true end) = Ok tt td ->
+  db_apps td = del completed (db_apps tc) /\
+  forall v, amem (db_users td) v = amem (db_users tc) v /\
+            avail td v = avail tc v + ssum (filter (fun a => ofu v a && mem_uuid (app_uuid a) completed) (db_apps tc)).
+Proof.
+  intros HI Hnd. destruct completed as [|c0 cs].
+  - intros H; inversion H; subst. split; [symmetry; apply del_nil|]. intros v. split; [reflexivity|].
+    rewrite filter_false; [cbn [ssum fold_right]; lia|]. intros a _. apply andb_false_r.
+  - remember (c0 :: cs) as completed eqn:Hc. clear Hc c0 cs.
+    unfold gk_delete_appointments. destruct (refund_loop tc completed) as [[] tr|] eqn:Er; cbn [bind]; [|discriminate].
+    intros H; inversion H; subst; clear H.
+    destruct (refund_spec completed tc tr HI Hnd Er) as [_ [Ha [_ Hv]]].
+    rewrite db_delete_apps_apps, db_delete_apps_users, Ha. split; [reflexivity|].
+    intros v. destruct (Hv v) as [H1 H2]. split; [exact H1|].
+    rewrite <- H2. apply avail_users. reflexivity.
+Qed.
+
+Lemma delete_norefund_spec t5 rej t6 :
+  (match rej with [] => Ok tt t5 | x :: l => gk_delete_appointments t5 (x :: l) false end) = Ok tt t6 ->
+  db_apps t6 = del rej (db_apps t5) /\ db_users t6 = db_users t5 /\ gk_users t6 = gk_users t5.
+Proof.
+  destruct rej as [|r0 rs].
+  - intros H; inversion H; subst. split; [symmetry; apply del_nil|]. split; reflexivity.
+  - unfold gk_delete_appointments. intros H; inversion H; subst. repeat split.
+Qed.
+
+Lemma r_block_spec le sc t2 hash txs h t3 :
+  Inv t2 -> r_block_connected le sc t2 (index_block hash txs) h = Ok tt t3 ->
+  exists completed rej,
+    NoDup completed /\
+    (forall u, In u completed -> exists k, In k (db_trks t2) /\ trk_uuid k = u /\ memN (t_penalty k) txs = false /\
+                                           t_conf k = true /\ u32_sub h (t_height k) = Some IRR) /\
+    (forall k, In k (db_trks t2) -> memN (t_penalty k) txs = false -> mem_uuid (trk_uuid k) (reorged t2) = false ->
+               t_conf k = true -> u32_sub h (t_height k) = Some IRR -> In (trk_uuid k) completed) /\
+    db_apps t3 = del rej (del completed (db_apps t2)) /\
+    forall v, amem (db_users t3) v = amem (db_users t2) v /\
+              avail t3 v = avail t2 v + ssum (filter (fun a => ofu v a && mem_uuid (app_uuid a) completed) (db_apps t2)).
+Proof.
+  intros HI. unfold r_block_connected. rewrite keys_index_block.
+  destruct (ti_update (r_index (set_car_height t2 h)) (index_block hash txs)) as [idx|]; [|discriminate].
+  set (t1 := set_r_index (set_car_height t2 h) idx).
+  assert (HI1 : Inv t1) by (eapply inv_frame; [|exact HI]; repeat split).
+  change (db_trks t1) with (db_trks t2).
+  pose proof (check_conf_loop_pres Inv inv_wr le txs h (db_trks t2) t1 [] HI1) as HIc.
+  destruct (check_conf_loop le txs h (db_trks t2) t1 []) as [completed tc|] eqn:Ec; cbn [bind]; [|discriminate].
+  cbn [pres] in HIc.
+  apply check_conf_spec in Ec. destruct Ec as [Huac [added [Hadd [C2 [C3 C1]]]]]. cbn [List.app] in Hadd. subst added.
+  change (reorged t1) with (reorged t2) in C3.
+  specialize (C1 (inv_trks_nodup t2 HI)).
+  apply ua_fields in Huac. destruct Huac as [_ [Huc Hac]].
+  change (db_users t1) with (db_users t2) in Huc. change (db_apps t1) with (db_apps t2) in Hac.
+  destruct (match completed with [] => Ok tt tc | _ => gk_delete_appointments tc completed true end) as [[] td|] eqn:Ed;
+    cbn [bind]; [|discriminate].
+  apply (delete_refund_spec tc completed td HIc C1) in Ed. destruct Ed as [Had Hvd].
+  destruct (match reorged td with [] => Ok [] td | _ :: _ => reorged_loop sc h (reorged td) (set_reorged td []) [] end)
+    as [rej1 t4|] eqn:Er.
+  2:{ destruct (reorged td); [discriminate|]. rewrite Er. cbn [bind]. discriminate. }
+  assert (Hua4 : ua t4 = ua td).
+  { destruct (reorged td); [inversion Er; reflexivity|]. apply reorged_loop_ua in Er. exact Er. }
+  assert (Hb : (match reorged td with [] => Ok [] td | x :: l => reorged_loop sc h (x :: l) (set_reorged td []) [] end) = Ok rej1 t4).
+  { destruct (reorged td); exact Er. }
+  rewrite Hb. cbn [bind]. clear Hb Er.
+  destruct (u32_sub h (Z.to_N Consts.CONFIRMATIONS_BEFORE_RETRY)) as [lim|]; [|discriminate].
+  destruct (stale_loop sc h _ t4 []) as [rej2 t5|] eqn:Es; cbn [bind]; [|discriminate].
+  apply stale_loop_ua in Es.
+  destruct (match rej1 ++ rej2 with [] => Ok tt t5 | l => gk_delete_appointments t5 l false end) as [[] t6|] eqn:E6;
+    cbn [bind]; [|discriminate].
+  apply delete_norefund_spec in E6. destruct E6 as [Ha6 [Hu6 _]].
+  intros H; inversion H; subst t3; clear H.
+  apply ua_fields in Hua4, Es. destruct Hua4 as [_ [Hu4 Ha4]]. destruct Es as [_ [Hu5 Ha5]].
+  exists completed, (rej1 ++ rej2).
+  split; [exact C1|]. split; [exact C2|]. split; [exact C3|]. split.
+  - cbn [db_apps set_car_memo]. rewrite Ha6, Ha5, Ha4, Had, Hac. reflexivity.
+  - intros v. destruct (Hvd v) as [H1 H2].
+    assert (Hu36 : db_users (set_car_memo t6 []) = db_users td) by (cbn [db_users set_car_memo]; congruence).
+    split.
+    + unfold amem in *. rewrite Hu36, H1, Huc. reflexivity.
+    + rewrite (avail_users td _ v Hu36), H2, Hac. rewrite (avail_users t2 tc v Huc). reflexivity.
+Qed.
